@@ -383,7 +383,12 @@ def op_cases(draw, tier, names=None):
         elif k == "dfa2":
             args[k] = draw(G.dfa_specs(max_states=3, sigma=sigma, pool=G.POOL[:8] if draw(st.booleans()) else G.POOL[8:16]))
         elif k == "nfa":
-            args[k] = draw(G.nfa_specs(max_states=4, sigma=sigma, pool=G.POOL[:8])) if "nfa2" in kinds else draw(G.mixed_nfa_specs(max_states=4, sigma=sigma))
+            if "nfa2" in kinds:
+                args[k] = draw(G.nfa_specs(max_states=4, sigma=sigma, pool=G.POOL[:8]))
+            elif draw(st.integers(0, 2)) == 0:
+                args[k] = draw(G.ring_nfa_specs(sigma=sigma))          # eps-cycles entered at several states: closures computed in set-iteration order
+            else:
+                args[k] = draw(G.mixed_nfa_specs(max_states=4, sigma=sigma))
         elif k == "nfa_text":
             args[k] = draw(G.nfa_specs(max_states=3, sigma=sigma, eps_choices=["ε", "_"]))
         elif k == "nfa2":
@@ -399,6 +404,13 @@ def op_cases(draw, tier, names=None):
             args[k] = draw(safe_pda())
         elif k == "pda_small":
             args[k] = draw(safe_pda(small=True))
+        if k in ("pda", "pda_small") and draw(st.integers(0, 4)) == 0:
+            # state names M<i>, q_accept<i>: the names the conversions give to the states they add (counted from the generated offset of the case)
+            sp = args[k]
+            pre = draw(st.sampled_from(["M", "M", "q_accept", "q"]))
+            start = draw(st.integers(0, 3))
+            m = {q: "%s%d" % (pre, start + i) for i, q in enumerate(sp["Q"])}
+            args[k] = dict(sp, Q=[m[q] for q in sp["Q"]], d=[[m[p], a, u, m[q], v] for p, a, u, q, v in sp["d"]], q0=m[sp["q0"]], F=[m[q] for q in sp["F"]])
         elif k == "tm":
             args[k] = draw(GT.tm_specs(max_states=4, sigma=sigma))
         elif k == "n":
